@@ -164,6 +164,30 @@ impl Octree {
                 .collect::<Option<Vec<_>>>()
         })?;
 
+        #[cfg(fidget_verif)]
+        for (i, o) in out.iter().enumerate() {
+            let (pg, pj) = o
+                .cell
+                .index
+                .map(|(g, j)| (g as i64, j as i64))
+                .unwrap_or((-1, 0));
+            let (kind, a, b) = Self::verif_cell(o.octree.root);
+            fidget_core::verif::emit(
+                "mt_task",
+                &[
+                    ("i", i as i64),
+                    ("pg", pg),
+                    ("pj", pj),
+                    ("ncells", o.octree.cells.len() as i64),
+                    ("nverts", o.octree.verts.len() as i64),
+                    ("kind", kind),
+                    ("a", a),
+                    ("b", b),
+                ],
+            );
+            o.octree.verif_dump("mt_lcell", i as i64);
+        }
+
         // Copy hermite data into arrays, and compute cumulative offsets
         let mut cell_offsets = vec![root.cells.len()];
         let mut vert_offsets = vec![0];
@@ -203,6 +227,17 @@ impl Octree {
         }
 
         // Walk back up the tree, merging cells as we go
+        #[cfg(fidget_verif)]
+        for (cell, index) in fixup.iter() {
+            let (pg, pj) = cell
+                .index
+                .map(|(g, j)| (g as i64, j as i64))
+                .unwrap_or((-1, 0));
+            fidget_core::verif::emit(
+                "mt_fix",
+                &[("pg", pg), ("pj", pj), ("g", *index as i64)],
+            );
+        }
         for (cell, index) in fixup.into_iter().rev() {
             let h = hermites[index];
             root[cell] = root.check_done(
@@ -214,7 +249,59 @@ impl Octree {
                     .unwrap_or(&mut LeafHermiteData::default()),
             );
         }
+        #[cfg(fidget_verif)]
+        {
+            let (kind, a, b) = Self::verif_cell(root.root);
+            fidget_core::verif::emit(
+                "mt_root",
+                &[
+                    ("ncells", root.cells.len() as i64),
+                    ("nverts", root.verts.len() as i64),
+                    ("kind", kind),
+                    ("a", a),
+                    ("b", b),
+                ],
+            );
+            root.verif_dump("mt_cell", -1);
+        }
         Some(root)
+    }
+
+    /// Verification hook: a cell as (kind, index, mask); kind is 0 invalid,
+    /// 1 empty, 2 full, 3 branch (index of the group), 4 leaf (index of the
+    /// first vertex, corner mask)
+    #[cfg(fidget_verif)]
+    fn verif_cell(c: Cell<3>) -> (i64, i64, i64) {
+        match c {
+            Cell::Invalid => (0, 0, 0),
+            Cell::Empty => (1, 0, 0),
+            Cell::Full => (2, 0, 0),
+            Cell::Branch { index } => (3, index as i64, 0),
+            Cell::Leaf(Leaf { mask, index }) => {
+                (4, index as i64, mask.index() as i64)
+            }
+        }
+    }
+
+    /// Verification hook: one event per cell of every group
+    #[cfg(fidget_verif)]
+    fn verif_dump(&self, name: &'static str, task: i64) {
+        for (g, cs) in self.cells.iter().enumerate() {
+            for (j, c) in cs.iter().enumerate() {
+                let (kind, a, b) = Self::verif_cell(*c);
+                fidget_core::verif::emit(
+                    name,
+                    &[
+                        ("i", task),
+                        ("g", g as i64),
+                        ("j", j as i64),
+                        ("kind", kind),
+                        ("a", a),
+                        ("b", b),
+                    ],
+                );
+            }
+        }
     }
 
     /// Recursively walks the dual of the octree, building a mesh
